@@ -197,6 +197,49 @@ pub fn enum_registry(i: u64) -> String {
     format!("0005 {} - {}", rxq.join(","), list(&ops, ";"))
 }
 
+/// the `i`-th routing history: every sequence of at most 5 operations over {register a plain handler, register a capture-all
+/// handler whose callback sends a packet to the device's own address (re-entrant loop-back), register a handler whose callback
+/// sends to another device, remove id 0, tick, send to the own address / to another device / to the broadcast address}, on a
+/// device with address 0x0005 (even `i`) or 0xffff (odd `i`) whose link delivers packets for the device, for another device and
+/// for everybody in turn and fails every second transmission
+pub fn enum_routing(i: u64) -> String {
+    let own = if i % 2 == 0 { "0005" } else { "ffff" };
+    let mut i = i / 2;
+    let mut len = 0u32;
+    loop {
+        let c = 8u64.pow(len);
+        if i < c || len == 5 {
+            break;
+        }
+        i -= c;
+        len += 1;
+    }
+    let mut token = 0;
+    let ops: Vec<String> = (0..len)
+        .rev()
+        .map(|k| match (i / 8u64.pow(k)) % 8 {
+            0 => {
+                token += 1;
+                format!("add/o/{}/-", token - 1)
+            }
+            1 => {
+                token += 1;
+                format!("add/c/{}/D:{}:aa", token - 1, own)
+            }
+            2 => {
+                token += 1;
+                format!("add/o/{}/D:0009:bb", token - 1)
+            }
+            3 => "rm/0".to_string(),
+            4 => "tick".to_string(),
+            5 => format!("send/D:{}:01", own),
+            6 => "send/D:0009:02".to_string(),
+            _ => "send/D:ffff:03".to_string(),
+        })
+        .collect();
+    format!("{} D:{}:11,D:0009:12,D:ffff:13,D:{}:14,D:0009:15 oeoeoeoeoeoeoeoe {}", own, own, own, list(&ops, ";"))
+}
+
 fn res_str(res: std::thread::Result<Result<(), ProtocolError>>) -> String {
     match res {
         Err(_) => "panic".into(),
